@@ -76,6 +76,14 @@ class Ctx:
         return random.Random(f"{self.prop}/{self.seed}/{i}/{salt}")
 
 
+class CaseTimeout(BaseException):
+    """Raised by the per-case alarm; the case is counted as timed out (inconclusive)."""
+
+
+def _alarm(signum, frame):
+    raise CaseTimeout()
+
+
 def worker_main(argv=None):
     ap = argparse.ArgumentParser()
     ap.add_argument("--prop", required=True)
@@ -104,11 +112,28 @@ def worker_main(argv=None):
             if hasattr(mod, "case"):
                 n = mod.NCASES[a.tier]
                 i = a.sub
+                slow = []
+                import signal
+
+                limit = float(getattr(mod, "CASE_TIMEOUT", 20.0))
+                signal.signal(signal.SIGALRM, _alarm)
                 while i < n and ctx.time_left() > 0:
                     ctx.case_index = i
-                    mod.case(ctx, i, ctx.case_rng(i))
+                    tc = time.time()
+                    signal.setitimer(signal.ITIMER_REAL, limit)
+                    try:
+                        mod.case(ctx, i, ctx.case_rng(i))
+                    except CaseTimeout:
+                        ctx.count("case_timeout")
+                    finally:
+                        signal.setitimer(signal.ITIMER_REAL, 0)
+                    tc = time.time() - tc
+                    if tc > 5.0:
+                        slow.append((round(tc, 1), i))
                     ctx.count("cases")
                     i += a.nsub
+                if slow:
+                    ctx.notes.append("slow cases (s, index): " + repr(sorted(slow, reverse=True)[:5]))
                 if i < n:
                     ctx.count("cases_not_reached_time_budget", (n - i + a.nsub - 1) // a.nsub)
         if hasattr(mod, "finish"):
